@@ -1517,11 +1517,34 @@ def slice_(eng, st, base, lo, hi, step, node):
       n = to_z3(o.length)
       h2 = z3.If(h < 0, z3.If(h + n < 0, 0, h + n), z3.If(h > n, n, h))
       return st.alloc(HList(items=None, length=h2, elem_t=o.elem_t, rep=o.rep))
+    if isinstance(o, HList) and step is None and lo is not None:
+      # xs[lo:hi] of a symbolic list: a NEW list of length max(0, hi' - lo') whose element t is xs[lo' + t]
+      # (lo', hi' = the bounds clamped to [0, len] after adding len to negative ones: Python's slice semantics)
+      to_symbolic_list(eng, st, o)
+      n = to_z3(o.length)
+      clamp = lambda v: z3.If(v < 0, z3.If(v + n < 0, 0, v + n), z3.If(v > n, n, v))
+      l2 = clamp(to_z3(eng.need_int(st, lo, node)))
+      h2 = n if hi is None else clamp(to_z3(eng.need_int(st, hi, node)))
+      return st.alloc(HList(items=None, length=z3.If(h2 > l2, h2 - l2, 0), elem_t=o.elem_t, rep=_shift_rep(o.rep, l2)))
   if isinstance(base, (BytesV, bytes)):
     return bytes_slice(eng, st, base, lo, hi, step, node)
   if isinstance(base, Opaque):
     return Opaque(base.why + "[:]")
   raise_unsupported("slice")
+
+
+def _shift_rep(rep, off):
+  """Array view t -> rep[t + off], componentwise for optional / tuple element representations."""
+  if rep is None:
+    return None
+  if isinstance(rep, tuple):
+    if rep[0] == "opt":
+      return ("opt", _shift_rep(rep[1], off), _shift_rep(rep[2], off))
+    if rep[0] == "tuple":
+      return ("tuple", tuple(_shift_rep(r, off) for r in rep[1]))
+    raise_unsupported("slice of a list with this element representation")
+  t = z3.Int(V.fresh_name("slice_t"))
+  return z3.Lambda([t], z3.Select(rep, t + off))
 
 
 def retype_list(eng, st, o, decl):
